@@ -7,23 +7,27 @@
 //! (internal) sim worker|exec-stdin|shrink-stdin ...
 
 mod bytes;
+mod cmdsim;
 mod core;
 mod driver;
+mod gen;
 mod lexsim;
 mod rng;
+mod spec;
 
 use crate::core::Tier;
 use driver::{Dyn, DynEngine};
 
 fn engine_for(prop: &str) -> Option<Box<dyn DynEngine>> {
     Some(match prop {
+        "C11" => Box::new(Dyn(cmdsim::CmdSim)),
         "C13" => Box::new(Dyn(lexsim::LexSim(lexsim::Mode::C13))),
         "C14" => Box::new(Dyn(lexsim::LexSim(lexsim::Mode::C14))),
         _ => return None,
     })
 }
 
-pub const ALL_PROPS: &[&str] = &["C13", "C14"];
+pub const ALL_PROPS: &[&str] = &["C11", "C13", "C14"];
 
 fn arg_val(args: &[String], name: &str) -> Option<String> {
     args.iter().position(|a| a == name).and_then(|i| args.get(i + 1).cloned())
